@@ -115,11 +115,11 @@ PROPS['C01'] = dict(
 PROPS['C02'] = dict(
     title='Solver reports Optimal exactly when a feasible matching exists; never errors',
     functions=[LP + 'run', LP + 'run_optimisations', MOD + 'pulp_setup', 'solver:Solver.solve', LP + 'upper_lower_constraints', LP + 'stability_constraints'] + CRIT_FUNCS,
-    lemmas=['SUM/ext', 'SUM/le', 'SUM/const', 'SUM/nonneg', 'C02/size-bound', 'C03/freeze-opt'], level='other',
-    level_text=EXACT + 'run: never raises, solves at least once, returns the status of the last solve, only the last solve may have failed; every criterion creates a variable with a fresh literal name (duplicate names raise in PuLP); Solver.solve never raises in either mode and hands LP_Solver.run a fresh problem with all variables the requested options need (Model.pulp_setup).  Witness-in-bounds (the bounds of an objective variable admit the measure of EVERY matching feasible before the criterion, so that linking the variable excludes none - the completeness half of "criteria never turn a feasible instance infeasible") is proved for maxsize, minsize, lmb, lsb and for the per-lecturer deviation variables (|load - target| <= upper quota for every feasible matching, given 0 <= lower quota and 0 <= target <= upper quota; the deviation values are bounded by the upper quotas, so their maximum fits under the largest upper quota and their sum under the sum of the upper quotas - the two bounds that defects 1 and 2 had wrong).  For the size criteria: Solver.solve hands run a program whose solutions are 0/1 on the pair variables, add_constraints makes every row a partial assignment (row sums in [0,1], non-negativity by lemma SUM/nonneg for every row), run_optimisations keeps that as an invariant, and C02/size-bound gives 0 <= size <= number of students.  NOT proved deductively (bounded stand-in): witness-in-bounds for generous / greedy (rank counts) and the three weighted cost criteria (symbolic multipliers: nonlinear)',
+    lemmas=['SUM/ext', 'SUM/le', 'SUM/const', 'SUM/nonneg', 'C02/size-bound', 'C02/rank-sums-compose', 'C03/freeze-opt'], level='other',
+    level_text=EXACT + 'run: never raises, solves at least once, returns the status of the last solve, only the last solve may have failed; every criterion creates a variable with a fresh literal name (duplicate names raise in PuLP); Solver.solve never raises in either mode and hands LP_Solver.run a fresh problem with all variables the requested options need (Model.pulp_setup).  Witness-in-bounds (the bounds of an objective variable admit the measure of EVERY matching feasible before the criterion, so that linking the variable excludes none - the completeness half of "criteria never turn a feasible instance infeasible") is proved for maxsize, minsize, generous, greedy (the number of students at a rank is a sum over a rank list; the rank lists\' sum identity - required for EVERY weight of pair objects and instantiated inside the function with the variable values - turns it into a filtered sum over all pairs <= sum of the row sums <= number of students), lmb, lsb and for the per-lecturer deviation variables (|load - target| <= upper quota for every feasible matching, given 0 <= lower quota and 0 <= target <= upper quota; the deviation values are bounded by the upper quotas, so their maximum fits under the largest upper quota and their sum under the sum of the upper quotas - the two bounds that defects 1 and 2 had wrong).  For the size criteria: Solver.solve hands run a program whose solutions are 0/1 on the pair variables, add_constraints makes every row a partial assignment (row sums in [0,1], non-negativity by lemma SUM/nonneg for every row), run_optimisations keeps that as an invariant, and C02/size-bound gives 0 <= size <= number of students.  NOT proved deductively (bounded stand-in): witness-in-bounds for the three weighted cost criteria mincost / minsqcost / mincostlsb (symbolic multipliers: nonlinear)',
     harness=True, bound='<= 5 students x <= 3 projects x <= 3 lecturers incl. objective-bound stress instances, 0-3 random criteria, real CBC',
     budget={'quick': 30, 'thorough': 400}, trusted=T_LP,
-    assumptions=['witness-in-bounds of the objective variables of generous / greedy / mincost / minsqcost / mincostlsb: bounded stand-in only', 'well-formed lecturer quotas (0 <= lower, 0 <= target <= upper) are a precondition of Solver.solve (C09/quota-order for generated files)', 'FLAT/sum assumed (T11)'])
+    assumptions=['witness-in-bounds of the objective variables of mincost / minsqcost / mincostlsb: bounded stand-in only', 'well-formed lecturer quotas (0 <= lower, 0 <= target <= upper) are a precondition of Solver.solve (C09/quota-order for generated files)', 'FLAT/sum assumed (T11)'])
 PROPS['C03'] = dict(
     title='Each optimisation criterion optimises the quantity it is documented to optimise',
     functions=CRIT_FUNCS + [LP + 'run', LP + 'run_optimisations'], lemmas=['SUM/ext', 'C03/freeze-opt'], level='other',
